@@ -231,6 +231,91 @@ def rule_threshold_first(P):
     return R
 
 
+# hole managers: (functions that take a hole out of the tracked set, functions / events that put one in) — confirmed by reading each manager
+COALESCE_VOCAB = {
+    "array_plus_grid": ({"stopTrackingHole"}, {"startTrackingHole"}),
+    "original_grid": ({"removeFromGrid"}, {"addToGrid"}),
+    # the heap manager tracks small holes by a slot count only, large ones in the heap, and keeps one `current_hole` outside both
+    "heap_manager": ({"removeHeapNode", "decSmallSlots"}, {"incSmallSlots", "makeRoot", "setLeft", "setRight"}),
+}
+
+
+def rule_coalesce(P):
+    """recycleChunk of the three hole-based managers: the freed chunk is tagged as a hole first; a neighbouring hole is taken out of the tracked
+    set before it is absorbed; the grown hole is re-tagged; and what remains is put into the tracked set on every path that does not give it
+    back to the end of the array.  A neighbour that stays tracked after being absorbed is handed out a second time (overlapping chunks)."""
+    R = RuleResult("storage.coalesce-protocol", "recycleChunk of every hole-based memory manager: tag first (setHoleSize before any isHole test); untrack a neighbour before `numSlots += getHoleSize(neighbour)`; setHoleSize again after it; track the final hole on every path except the array-end give-back")
+    n = 0
+    seen = set()
+    for f in sorted(P.fns.values(), key=lambda f: (f["file"], f["line"], f["inst"])):
+        if not f.get("cfg") or not f["file"].startswith("memory_managers/") or not f["q"].endswith("::recycleChunk") or (f["file"], f["line"]) in seen:
+            continue
+        cls = re.sub(r"<.*", "", (f.get("cls") or "").replace(M, ""))
+        if cls not in COALESCE_VOCAB:
+            continue
+        seen.add((f["file"], f["line"]))
+        untrack, track = COALESCE_VOCAB[cls]
+        g = Graph(f)
+        n += 1
+        R.functions.add(f["inst"])
+        hp, np_ = f["params"][0]["name"], f["params"][1]["name"]
+        callnm = lambda k: k.kind == "call" and k.ev["q"].startswith(M) and k.ev["q"].split("::")[-1]
+        tag = lambda k: callnm(k) == "setHoleSize" and [_nzs(a) for a in k.ev["args"]] == [hp, np_]
+        is_exit = lambda k: k.kind == "ret" or k.id == g.exit
+        # (a) tag first
+        R.paths += 1
+        iid = "%s::recycleChunk: the chunk is tagged as a hole before any neighbour test" % cls
+        p_ = g.path(g.entry, lambda k: callnm(k) == "isHole", avoid=tag)
+        (R.ok(iid, where(f)) if p_ is None else R.fail(iid, where(f), Finding(R.rule, f["file"], base_name(f["q"]), "tag-first", "a neighbour is tested with isHole before setHoleSize(%s, %s): the boundary tags of the freed chunk are not yet written" % (hp, np_), f["line"], show_path(p_))))
+        absorbs = [k for k in g.nodes if k.kind == "ldef" and k.ev["var"] == np_ and k.ev.get("op") == "+=" and re.search(r"getHoleSize\((\w+)\)", _nzs(k.ev.get("rhs", "")))]
+        if len(absorbs) < 2:
+            raise AnalysisBroken("storage.coalesce-protocol: %s::recycleChunk: expected a left and a right `%s += getHoleSize(x)`, found %d" % (cls, np_, len(absorbs)))
+        for a in sorted(absorbs, key=lambda k: k.line):
+            x = re.search(r"getHoleSize\((\w+)\)", _nzs(a.ev["rhs"])).group(1)
+            # (b) untrack before absorb
+            R.paths += 1
+            iid = "%s::recycleChunk: `%s` leaves the tracked set before it is absorbed" % (cls, x)
+            un = lambda k, x=x: callnm(k) in untrack and any(re.search(r"(?<!\w)%s(?!\w)" % x, arg) for arg in k.ev["args"])
+            # the heap manager's current hole is in neither structure: the edge on which `current_hole != x` is false needs no untrack
+            cur = [b for b in g.nodes if b.kind == "branch" and b.cond and len(b.succ) == 2 and _nzs(b.cond["text"].replace("this->", "")) in ("current_hole!=%s" % x, "%s!=current_hole" % x)]
+            cur_false = {(b.id, 0 if b.cond.get("neg") else 1) for b in cur}
+            p_ = g.path(g.entry, lambda k, a=a: k.id == a.id, avoid=un, avoid_edge=lambda k, i: (k.id, i) in cur_false)
+            if p_ is None:
+                R.ok(iid, where(f, a.line))
+            else:
+                R.fail(iid, where(f, a.line), Finding(R.rule, f["file"], base_name(f["q"]), "untrack:" + x,
+                       "`%s` is absorbed into the freed chunk while it is still in the manager's tracked set (%s not called for it): its slots can be handed out again although they now belong to the merged hole" % (x, "/".join(sorted(untrack))), a.line, show_path(p_)))
+            # (c) re-tag after absorb
+            R.paths += 1
+            iid = "%s::recycleChunk: the hole is re-tagged after absorbing `%s`" % (cls, x)
+            p_ = g.path(a, lambda k: is_exit(k) or callnm(k) in track or callnm(k) == "recycleHoleInArray", avoid=tag)
+            if p_ is None:
+                R.ok(iid, where(f, a.line))
+            else:
+                R.fail(iid, where(f, a.line), Finding(R.rule, f["file"], base_name(f["q"]), "retag:" + x,
+                       "after `%s += getHoleSize(%s)` the hole is used (tracked, given back or left) without setHoleSize(%s, %s): its tags still say the old size" % (np_, x, hp, np_), a.line, show_path(p_)))
+        # (d) the final hole is tracked
+        R.paths += 1
+        iid = "%s::recycleChunk: the final hole enters the tracked set on every path except the array-end give-back" % cls
+        give = [b for b in g.nodes if b.kind == "branch" and b.cond and len(b.succ) == 2 and any(c.endswith("recycleHoleInArray") for c in b.cond["calls"])]
+        give_true = {(b.id, 1 if b.cond.get("neg") else 0) for b in give}
+        curh = [b for b in g.nodes if b.kind == "branch" and b.cond and len(b.succ) == 2 and _nzs(b.cond["text"].replace("this->", "")) in ("%s==current_hole" % hp, "current_hole==%s" % hp)]
+        cur_true = {(b.id, 1 if b.cond.get("neg") else 0) for b in curh}
+        p_ = g.path(g.entry, is_exit, avoid=lambda k: callnm(k) in track, avoid_edge=lambda k, i: (k.id, i) in give_true or (k.id, i) in cur_true)
+        if p_ is None and give:
+            R.ok(iid, where(f))
+        else:
+            R.fail(iid, where(f), Finding(R.rule, f["file"], base_name(f["q"]), "track-final", "recycleChunk can return without putting the hole into the tracked set (%s): the memory is lost to later requests, or — if a stale entry remains — served twice" % "/".join(sorted(track)), f["line"], show_path(p_) if p_ else None))
+    if n < 3:
+        raise AnalysisBroken("storage.coalesce-protocol: expected the three hole managers' recycleChunk, found %d" % n)
+    R.require_floor(18, "coalescing obligations")
+    return R
+
+
+def _nzs(t):
+    return re.sub(r"\s+", "", t or "")
+
+
 def rule_chunkptr(P):
     """memory.h: a pointer from getChunkAddress is valid only until the next requestChunk of the same manager"""
     R = RuleResult("chunkptr", "in storage/simple.cc and storage/ct_styles.cc a local pointer obtained from getChunkAddress is not used after a call that can reach requestChunk (the array-based memory managers may move their storage)")
@@ -302,4 +387,4 @@ def rule_chunkptr(P):
     return R
 
 
-RULES = [rule_threshold_first, rule_layout, rule_chunkptr]
+RULES = [rule_threshold_first, rule_coalesce, rule_layout, rule_chunkptr]
